@@ -96,6 +96,32 @@ class Packed:
     return NotImplemented
 
 
+_IRANGE = {"b": (-128, 127), "B": (0, 255), "h": (-2 ** 15, 2 ** 15 - 1), "H": (0, 2 ** 16 - 1),
+           "i": (-2 ** 31, 2 ** 31 - 1), "I": (0, 2 ** 32 - 1)}
+
+
+def _codec_accepts(code, v, who):
+  """Argument contract of the C codecs for one item: integer formats take integers inside the format's range.  A plain
+  Python float (e.g. the default pad value 0.) is refused, an out-of-range integer overflows; symbolic integers are
+  decided by the solver against the range (the harness declares the range of every symbolic element, so this is a
+  check that the code hands over what it was given, not an extra assumption)."""
+  if code not in _IRANGE: return
+  lo, hi = _IRANGE[code]
+  if isinstance(v, SymInt):
+    if not bool(And(v >= lo, v <= hi)):
+      raise (real_struct.error("argument out of range") if who == "struct" else OverflowError("value out of range for '%s'" % code))
+    return
+  if isinstance(v, Sym):
+    raise Unsupported("a symbolic real handed to the integer format %r" % code)
+  if isinstance(v, bool) or isinstance(v, int):
+    if not lo <= v <= hi:
+      raise (real_struct.error("'%s' format requires %d <= number <= %d" % (code, lo, hi)) if who == "struct"
+             else OverflowError("value out of range for typecode '%s'" % code))
+    return
+  if who == "struct": raise real_struct.error("required argument is not an integer")
+  raise TypeError("'%s' object cannot be interpreted as an integer" % type(v).__name__)
+
+
 class FakeStruct:
   def __init__(self, fmt):
     self.format = fmt
@@ -127,6 +153,7 @@ class FakeStruct:
 
   def pack(self, *vals):
     if len(vals) != self.count: raise real_struct.error("pack expected %d items for packing (got %d)" % (self.count, len(vals)))
+    for v in vals: _codec_accepts(self.code, v, "struct")
     return Packed(self.format, vals)
 
 
@@ -135,7 +162,11 @@ class FakeArray:
     self.typecode = code
     self.data = list(init.data) if isinstance(init, FakeArray) else list(init)
     self.swapped = init.swapped if isinstance(init, FakeArray) else False
-  def __setitem__(self, i, v): self.data[i] = v
+    if not isinstance(init, FakeArray):
+      for v in self.data: _codec_accepts(code, v, "array")
+  def __setitem__(self, i, v):
+    _codec_accepts(self.typecode, v, "array")
+    self.data[i] = v
   def __getitem__(self, i): return self.data[i]
   def __len__(self): return len(self.data)
   @property
@@ -149,8 +180,13 @@ class FakeArray:
     if not isinstance(o, FakeArray) or o.typecode != self.typecode or o.swapped != self.swapped:
       raise Unsupported("concatenation of unlike arrays")
     return self._like(self.data + o.data)
-  def append(self, v): self.data.append(v)
-  def extend(self, vs): self.data.extend(vs.data if isinstance(vs, FakeArray) else list(vs))
+  def append(self, v):
+    _codec_accepts(self.typecode, v, "array")
+    self.data.append(v)
+  def extend(self, vs):
+    vs = vs.data if isinstance(vs, FakeArray) else list(vs)
+    for v in vs: _codec_accepts(self.typecode, v, "array")
+    self.data.extend(vs)
   def byteswap(self): self.swapped = not self.swapped
   def tobytes(self):
     native = "<" if sys.byteorder == "little" else ">"
@@ -350,12 +386,34 @@ def h_chunks_default_size(ctx, cfg):
   else:
     from audiolazy import chunks as ch
   x = [ctx.int("e%d" % i, -100, 100) for i in range(3)]
+  dfmt = cfg.get("dfmt", "h")
   for strat in ("struct", "array"):
-    out = list(ch[strat](list(x), dfmt="h", padval=0))
+    out = list(ch[strat](list(x), dfmt=dfmt, padval=0))
     ctx.prove(len(out) == 1, strat + ":default-size-one-chunk")
-    v, eff, body = _decode(out[0], ch.size, "h", None)
+    v, eff, body = _decode(out[0], ch.size, dfmt, None)
     ctx.prove(len(v) == ch.size and And(*[ctx.eq(a, b) for a, b in zip(v[:3], x)]) and all(bool(ctx.eq(t, 0)) for t in v[3:8]),
               strat + ":default-size-padded-to-chunks.size")
+
+
+def h_chunks_big_size(ctx, cfg):
+  """Chunk sizes around and beyond the value range of the item format."""
+  if ctx.mode == "sym":
+    ch = _sym_io_module()["chunks"]
+  else:
+    from audiolazy import chunks as ch
+  dfmt, size = cfg["dfmt"], cfg["size"]
+  lo, hi = _IRANGE[dfmt]
+  x = [ctx.int("e%d" % i, lo, hi) for i in range(2)]; pad = ctx.int("pad", lo, hi)
+  res = {}
+  for strat in ("struct", "array"):
+    out = list(ch[strat](list(x), size=size, dfmt=dfmt, padval=pad))
+    ctx.prove(len(out) == 1, strat + ":number-of-chunks")
+    v, eff, body = _decode(out[0], size, dfmt, None)
+    ctx.prove(len(v) == size and And(*[ctx.eq(a, b) for a, b in zip(v, x + [pad] * (size - 2))]),
+              strat + ":chunks-hold-the-sequence-then-pad-values")
+    res[strat] = out[0]
+  if ctx.mode == "concrete":
+    ctx.prove(res["struct"] == res["array"], "struct-and-array-strategies-agree", "bytes differ")
 
 
 def tasks(tier, seed):
@@ -370,7 +428,12 @@ def tasks(tier, seed):
   for dfmt in "bhifd":
     for bo in ("default", None, "<", ">", "!", "=", "@"):
       T.append(("h_chunks", {"dfmt": dfmt, "byte_order": bo, "L": 8 if big else 5, "S": 4 if big else 3}))
-  T.append(("h_chunks_default_size", {}))
+  # the default chunk size (2048 items) is larger than the range of the one-byte formats
+  for dfmt in "hbi":
+    T.append(("h_chunks_default_size", {"dfmt": dfmt}))
+  # a chunk size beyond the range of the item format (size is an enumerated boundary value here, the data are symbolic)
+  for dfmt, size in (("b", 127), ("b", 128), ("b", 129), ("b", 300)):
+    T.append(("h_chunks_big_size", {"dfmt": dfmt, "size": size}))
   for dfmt in "hi":
     for orders in (["<", ">", "<"], [">", "<"], ["!", None, ">"], [None, ">", "="]):
       T.append(("h_chunks_two_orders", {"dfmt": dfmt, "size": 2, "orders": orders}))
